@@ -3,6 +3,14 @@
 COMMON_MODEL = "Go runtime, reflect, sync and the standard library are not modelled"
 
 PROPS = {
+    "C17": dict(
+        level_text="Coq theorem about DecoderGroup.Decode with its success cache as explicit state: for members whose rejection is determined by the source type and leaves the target untouched, the result after any warm-up history equals the cold result (first member that handles the source type decides); plus a refutation witness for the pinned algorithm. The group algorithm is tied to group.go exactly (a real encoding.DecoderGroup over synthetic members, including hypothesis-violating ones, vs. the model). PARTIAL: the composite decoders of pkg/types do not satisfy the hypothesis (measured on every run: hyp_* counters); for the real codec purity is checked directly (same outcome on a cold decoder, after warm-up histories, and from 8 goroutines), not proved.",
+        level_note="Partial proof: theorem conditional on kind-determined rejection, which holds for primitive decoders only; real-codec purity is differential testing. Trusted: Coq kernel + vm_compute; transcription of group.go; verif hooks listing group members and building a fresh decoder.",
+        technique="Coq proof (cache invariant: cached member = first supporting member) + exact correspondence of the group algorithm on synthetic members + direct purity oracle on the real codec",
+        quick_n=300, thorough_n=6000, shard=60, mismatch_is_failure=True,
+        assumptions=["reflect.TypeOf(source) is the cache key (sources of one Go type share an entry)"],
+        trusted_base=["pkg/encoding/group.go transcribed by hand into theories/Codec/Group.v", COMMON_MODEL, "verif hooks: DecoderGroup.VerifDecoders, types.VerifNewDecoder"],
+    ),
     "C18": dict(
         level_text="Coq theorems by structural induction over JSON-like documents of any nesting, for every text/template engine that renders action-free text to itself: fields without a template action come back equal from Build whatever the environment; execution changes nothing but the text of strings and keys (same shape); an identified variable without a value is rejected by Bind. The engine assumption is proved for the Gallina engine of the {{ . }} / {{ .NAME }} fragment used in the correspondence run, which executes Bind+Build on the real spec.Unstructured for generated specs/values and compares result, error class and panics with the model.",
         level_note="Trusted: Coq kernel + vm_compute; hand transcription of template.go/node.go and Meta.Bind/Unstructured.Build; Go's text/template is a Section variable constrained only by render_plain (recorded assumption) and modelled for the generated fragment; nil and empty containers are identified (JSON view).",
